@@ -43,6 +43,12 @@ theorem nextFrom_some {d : Dict} {pos pos' : Nat} {it : Item} (h : nextFrom d po
   obtain ⟨k, hk, hi⟩ := nextIn_some _ _ _ _ h
   rw [hk, List.take_add, items_append, hi]
 
+theorem items_take_le (d : Dict) (n : Nat) : (items (d.take n)).length ≤ used d := by
+  have : items d = items (d.take n) ++ items (d.drop n) := by rw [← items_append, List.take_append_drop]
+  unfold used
+  rw [this, List.length_append]
+  omega
+
 theorem seqSeen_snoc (d : Dict) (done : List Stmt) (st : Stmt) : seqSeen d (done ++ [st]) = seqSeen d done ++ items d := by
   simp [seqSeen, List.flatMap_append]
 
@@ -53,8 +59,8 @@ def FrameAt (d0 : Dict) (f : Frame) (extra : List Item) : Prop :=
 def DPcOK (d0 : Dict) : DPc → Prop
   | .idle => True
   | .run f => Op.isRead f.op = true ∧ ∃ done, f.op = done ++ f.rest ∧ f.seen = seqSeen d0 done
-  | .iter f mode u pos _ => mode ≠ .prune ∧ u = used d0 ∧ FrameAt d0 f (items (d0.take pos))
-  | .body f u pos => u = used d0 ∧ FrameAt d0 f (items (d0.take pos))
+  | .iter f mode u pos rem _ => mode ≠ .prune ∧ u = used d0 ∧ rem + (items (d0.take pos)).length = used d0 ∧ FrameAt d0 f (items (d0.take pos))
+  | .body f u pos rem => u = used d0 ∧ rem + (items (d0.take pos)).length = used d0 ∧ FrameAt d0 f (items (d0.take pos))
   | .dels _ _ => False
 
 def DThOK (d0 : Dict) (th : DThread) : Prop :=
@@ -120,17 +126,17 @@ theorem dstep_inv (d0 : Dict) (t : Nat) (s : DState) (h : DInv d0 s) : DInv d0 (
           simp only
           rw [hs, seqSeen_snoc, hd]
         | iterItems =>
-          refine ⟨hd, forall_set hth ⟨htodo, hrets, by decide, by rw [hd], hr, done, .iterItems, hop, ?_⟩⟩
+          refine ⟨hd, forall_set hth ⟨htodo, hrets, by decide, by rw [hd], by simp [hd, items], hr, done, .iterItems, hop, ?_⟩⟩
           simp [hs, items]
         | scanItems =>
-          refine ⟨hd, forall_set hth ⟨htodo, hrets, by decide, by rw [hd], hr, done, .scanItems, hop, ?_⟩⟩
+          refine ⟨hd, forall_set hth ⟨htodo, hrets, by decide, by rw [hd], by simp [hd, items], hr, done, .scanItems, hop, ?_⟩⟩
           simp [hs, items]
         | pruneFill => cases hst
         | setItem k v => cases hst
         | delItem k => cases hst
-    | iter f mode u pos acc =>
+    | iter f mode u pos rem acc =>
       rw [hp] at hpc
-      obtain ⟨hm, hu, hf⟩ := hpc
+      obtain ⟨hm, hu, hrem, hf⟩ := hpc
       simp only
       have hused : ¬ (used s.dict ≠ u) := by rw [hd, hu]; simp
       rw [if_neg hused, hd]
@@ -142,13 +148,20 @@ theorem dstep_inv (d0 : Dict) (t : Nat) (s : DState) (h : DInv d0 s) : DInv d0 (
         | comp => exact ⟨hd, forall_set hth ⟨htodo, hrets, frameAt_done hf hn⟩⟩
       | some r =>
         obtain ⟨it, pos'⟩ := r
+        have hlen : (items (d0.take pos')).length = (items (d0.take pos)).length + 1 := by
+          rw [nextFrom_some hn, List.length_append]; rfl
+        have hle := items_take_le d0 pos'
+        have hrem0 : ¬ rem = 0 := by omega
+        have hrem' : rem - 1 + (items (d0.take pos')).length = used d0 := by omega
+        simp only
+        rw [if_neg hrem0]
         cases mode with
         | prune => exact absurd rfl hm
-        | loop => exact ⟨hd, forall_set hth ⟨htodo, hrets, hu, frameAt_next hf hn⟩⟩
-        | comp => exact ⟨hd, forall_set hth ⟨htodo, hrets, hm, hu, frameAt_next hf hn⟩⟩
-    | body f u pos =>
+        | loop => exact ⟨hd, forall_set hth ⟨htodo, hrets, hu, hrem', frameAt_next hf hn⟩⟩
+        | comp => exact ⟨hd, forall_set hth ⟨htodo, hrets, hm, hu, hrem', frameAt_next hf hn⟩⟩
+    | body f u pos rem =>
       rw [hp] at hpc
-      exact ⟨hd, forall_set hth ⟨htodo, hrets, by decide, hpc.1, hpc.2⟩⟩
+      exact ⟨hd, forall_set hth ⟨htodo, hrets, by decide, hpc.1, hpc.2.1, hpc.2.2⟩⟩
     | dels f ks =>
       rw [hp] at hpc
       exact hpc.elim
